@@ -333,9 +333,19 @@ def path_facts(site, stop=None, ignore_kills_of=()):
         k2 = killed
         if ign:
             k2 = {k for k in killed if not any(k == i or str(k).startswith(str(i) + '.') for i in ign)}
-        if killed_by(mentioned_keys(cond), k2):
+        if not killed_by(mentioned_keys(cond), k2):
+            facts.append(Fact(cond, pol, origin))
             return
-        facts.append(Fact(cond, pol, origin))
+        # an assignment invalidated part of the condition: keep the conjuncts it does not touch
+        # (`while (n < 4 && in[0] == '#') { n++; <here in[0] == '#' still holds> }`)
+        c0 = strip(cond)
+        if c0 is not None and c0.get('kind') == 'BinaryOperator' and ((c0.get('opcode') == '&&' and pol) or (c0.get('opcode') == '||' and not pol)):
+            # the right operand of a short-circuit may itself assign: only split when it does not
+            if not assigned_keys(c0['inner'][1]) and not assigned_keys(c0['inner'][0]):
+                add(c0['inner'][0], pol, origin)
+                add(c0['inner'][1], pol, origin)
+        elif c0 is not None and c0.get('kind') == 'UnaryOperator' and c0.get('opcode') == '!':
+            add(c0['inner'][0], not pol, origin)
 
     while p is not None and p is not stop:
         k = p.get('kind')
